@@ -17,3 +17,15 @@ Definition run_case (table : bool) (t : stw) (c : cfg) (bs : list N)
   end.
 
 Definition wf_case (table : bool) (t : stw) : bool := schema_wf (schema_of table t).
+
+(** the reader of wincode's DEFAULT configuration (4 MiB preallocation size limit, element sizes =
+    [mem_size]) on the same bytes: does it accept them?  (ctbuilder before /repo 40b4e42) *)
+Definition run_limited (table : bool) (t : stw) (c : cfg) (bs : list N) : bool :=
+  match decode_limited PREALLOC_LIMIT mem_size c (schema_of table t) bs with
+  | Some _ => true
+  | None => false
+  end.
+
+(** [mem_size] of the element type of every sequence position, in encoding order *)
+Definition elem_sizes (table : bool) (t : stw) : list N :=
+  map mem_size (seq_elems (schema_of table t)).
